@@ -233,6 +233,12 @@ class Scale:
             return only.value is not None and x == only.value
         return self.lo.ok_lower(x) and self.hi.ok_upper(x)
 
+    def near_limit(self, x: Fraction) -> bool:
+        for l in (self.lo, self.hi):
+            if l.finite and abs(x - l.value) <= Fraction(1, 10**9) * max(1, abs(l.value)):
+                return True
+        return False
+
     # linear view ---------------------------------------------------------
     @property
     def n0(self) -> Fraction:
@@ -470,6 +476,7 @@ class Compu:
         if cat in ("LINEAR", "SCALE-LINEAR"):
             cands: List[Fraction] = []
             flat_hit = False
+            partial = False  # pre-image between a valid and an invalid integer: undetermined
             for s in self.scales:
                 if s.d0 == 0:
                     continue
@@ -483,16 +490,21 @@ class Compu:
                             cands.append(s.inv)
                     continue
                 x = (y * s.d0 - s.n0) / s.n1
+                if _has_float_noise(x) and s.near_limit(x):
+                    partial = True  # a double cannot tell on which side of the limit this is
+                    continue
                 if not s.contains(x, self.one_sided):
                     continue
                 if self.int_internal and x.denominator != 1:
                     lo = Fraction(_floor(x))
                     if not (s.contains(lo, self.one_sided) and s.contains(lo + 1, self.one_sided)):
+                        partial = True
                         continue
                 if x not in cands:
                     cands.append(x)
-            if flat_hit or len(cands) > 1:
-                raise NotInvertible("several pre-images / slope 0 without inverse value")
+            if flat_hit or partial or len(cands) > 1:
+                raise NotInvertible("several pre-images / slope 0 without inverse value / "
+                                    "pre-image next to an excluded integer")
             if not cands:
                 raise Invalid("no scale has a pre-image")
             return cands[0]
@@ -621,7 +633,7 @@ class Compu:
                     return False
             if len(self.scales) == 1:
                 return True
-            if self.monotone_continuous():
+            if self.monotone_continuous(strict=True):
                 return True
             hulls = [self._image_hull(s) for s in self.scales]
             if any(h is None for h in hulls):
@@ -675,16 +687,19 @@ class Compu:
             return len(set(pts)) == len(pts)
         return False
 
-    def monotone_continuous(self) -> bool:
-        """piecewise linear, scales in ascending order without gaps, equal values at the
-        junctions, all slopes of one sign (non-zero): the rule says such a method is
-        invertible"""
+    def monotone_continuous(self, strict: bool = False) -> bool:
+        """ODX invertibility condition of a piecewise linear method: scales in ascending order
+        without gaps, equal values at the junctions, all slopes of one sign or 0 (a scale of
+        slope 0 needs a COMPU-INVERSE-VALUE; `strict` forbids slope 0)."""
         if self.cat not in ("LINEAR", "SCALE-LINEAR") or not self.scales:
             return False
         ss = self.scales
-        if any(s.d0 == 0 or s.n1 == 0 for s in ss):
+        if any(s.d0 == 0 or s.num is None for s in ss):
             return False
-        if not (all(s.slope > 0 for s in ss) or all(s.slope < 0 for s in ss)):
+        slopes = [s.slope for s in ss if s.n1 != 0]
+        if not slopes or not (all(x > 0 for x in slopes) or all(x < 0 for x in slopes)):
+            return False
+        if any(s.n1 == 0 and (strict or s.inv is None) for s in ss):
             return False
         if any(s.one_sided for s in ss) and len(ss) > 1:
             return False
